@@ -29,6 +29,10 @@ import (
 type ServiceSpec struct {
 	linkOnce
 
+	// linking is true while Link is in progress. Reaching the service again
+	// during that time means that it inherits from itself.
+	linking bool
+
 	Name        string
 	File        string
 	Parent      *ServiceSpec
@@ -115,8 +119,14 @@ func resolveService(src ast.ServiceReference, scope Scope) (*ServiceSpec, error)
 // Link resolves any references made by the given service.
 func (s *ServiceSpec) Link(scope Scope) error {
 	if s.linked() {
+		if s.linking {
+			return serviceCycleError{Name: s.Name}
+		}
 		return nil
 	}
+
+	s.linking = true
+	defer func() { s.linking = false }()
 
 	if s.parentSrc != nil {
 		parent, err := resolveService(*s.parentSrc, scope)
